@@ -259,8 +259,11 @@ func (ri *RedisInput) syncMeta(ctx context.Context, redisCli *redis.StandaloneRe
 				return
 			}
 			if !isFullSync { // continue to sync with local RDB
-				_, locRight := ri.channel.GetOffsetRange(locSp.RunId)
-				locSp.Offset = locRight
+				// locSp.Offset stays the offset StartPoint answered and PSYNC was sent with : the source
+				// streams from locSp.Offset+1, so the writer must store from exactly there. Reading the
+				// cache again here (GetOffsetRange, after the PSYNC round trip) handed the writer -1 when
+				// a collector pass had emptied the cache in between, and the bytes of locSp.Offset+1..
+				// were stored at the offsets -1..
 				outSp.Offset = locRdbLeft - locRdbSize
 				rdbSize = locRdbSize
 			}
